@@ -95,7 +95,7 @@ class Contract:
         return self.props
 
 
-SPEC_FUNCS = {"pre_iter", "prev", "old", "implies", "iff", "forall", "exists", "pre_loop", "is_fresh", "unchanged", "typed", "ite", "alive_before", "same_field"}
+SPEC_FUNCS = {"pre_iter", "prev", "old", "implies", "iff", "forall", "exists", "pre_loop", "is_fresh", "unchanged", "typed", "ite", "alive_before", "same_field", "alive"}
 
 
 class SpecCtx:
@@ -171,6 +171,9 @@ def _spec_call(engine, n, st):
     elif name == "is_fresh":
         sv, _, st = engine.eval_merged(n.args[0], st)
         yield st, sv_bool(Not(engine.alive(ctx.pre)[sv.t]))
+    elif name == "alive":
+        sv, _, st = engine.eval_merged(n.args[0], st)
+        yield st, sv_bool(engine.alive(st)[sv.t])
     elif name == "alive_before":
         sv, _, st = engine.eval_merged(n.args[0], st)
         yield st, sv_bool(engine.alive(ctx.pre)[sv.t])
